@@ -333,8 +333,8 @@ def r_symmetry(ctx, rule='R-SYMMETRY'):
             tags = set()
             for a in c.args:
                 tags |= tg.read_op(a)
-            if tags in ({'L'}, {'R'}):
-                side = list(tags)[0]
+            if pairing.side_of(tags) is not None:
+                side = pairing.side_of(tags)
                 nm = short(c.callee)
                 if nm in ('deref', 'clone', 'into', 'from', 'branch', 'from_residual', 'len', 'is_empty', 'eq', 'ne', 'drop'):
                     continue
@@ -357,8 +357,8 @@ def r_symmetry(ctx, rule='R-SYMMETRY'):
             tags = set()
             for a in c.args:
                 tags |= tg.read_op(a)
-            if tags in ({'L'}, {'R'}):
-                by_side[list(tags)[0]].append(c)
+            if pairing.side_of(tags) is not None:
+                by_side[pairing.side_of(tags)].append(c)
         if not by_side['L'] and not by_side['R']:
             continue
         n += 1
@@ -492,6 +492,15 @@ def r_push_sorted(ctx, rule='R-PUSH-SORTED'):
                                 lossy_order = any(n.endswith(('Iterator::rev', 'Iterator::chain', 'Iterator::flat_map', 'Iterator::flatten')) for n in names)
                                 if sorted_src and not lossy_order:
                                     ascending = True
+            if not ascending and not f.in_cycle(c.bb):
+                # the first value pushed into a bitmap created empty in this function (`let mut b = RoaringBitmap::new(); b.push(x)`)
+                recv = strip(c.arg_term(0))
+                if recv[0] == 'call' and recv[1].endswith(('RoaringBitmap>::new', 'Default::default')) and isinstance(recv[3], int):
+                    earlier = [x for x in f.calls() if x.bb != c.bb and x.args and strip(x.arg_term(0))[0] == 'call' and strip(x.arg_term(0))[3] == recv[3]
+                               and x.callee.endswith(('RoaringBitmap>::insert', 'RoaringBitmap>::push', 'bitor_assign', 'Extend::extend', 'RoaringBitmap>::insert_range', 'RoaringBitmap>::append'))
+                               and c.bb in f.reachable(x.target)]
+                    if not earlier:
+                        ascending = True
             ctx.check(used or ascending, rule, key, c.loc(), 'pushed value comes from an ascending iteration' if ascending else 'push result is checked',
                       '`RoaringBitmap::push` in `%s` is fed with %s, which is not taken from an ascending iteration, and its result is ignored: the value is silently dropped unless it is larger than everything already in the bitmap' % (f.path, show(v)[:80]))
     ctx.floor(rule, 'RoaringBitmap::push sites', n, 3)
@@ -557,15 +566,28 @@ def r_batch_sets(ctx, rule='R-BATCH-SETS'):
         got = bitmap_args(inss[0])
         ctx.check(got == [('and', frozenset(['L', 'U']))], rule, be.path + '/insertion-set', inss[0].loc(), 'the insertion pass receives live & updated',
                   'the insertion pass of `%s` does not receive exactly the live updated ids (%s)' % (be.path, got))
-    # trees created from scratch
+    # trees created from scratch (in the build entry or in a closure it maps over the missing trees)
     n = 0
-    for (_g, c, op, w, k) in db_ops(F, [be]):
+    clos = {}
+    for c0 in be.calls():
+        for i0 in range(len(c0.args)):
+            for x in walk(c0.arg_term(i0)):
+                if x[0] == 'closure' and len(x) > 2:
+                    clos[x[1]] = list(x[2])
+    scope = list(F.family(be)) + [F.fn(p0) for p0 in clos if F.fn(p0) is not None and F.fn(p0) not in F.family(be)]
+    for (g0, c, op, w, k) in db_ops(F, scope):
         if op != 'put' or k is None:
             continue
         ki = key_info(c.arg_term(k))
         if not ki or ki[0] != 'tree' or not any(x[0] == 'call' and x[1].endswith('ConcurrentNodeIds::next') for x in walk(ki[2])):
             continue
-        d = paths.agg_fields(c.arg_term(3), 'node::Descendants')
+        val = c.arg_term(3)
+        if g0 is not be:
+            if g0.path not in clos:
+                continue
+            from reader_rules import closure_subst
+            val = closure_subst(val, clos[g0.path])
+        d = paths.agg_fields(val, 'node::Descendants')
         if not d:
             continue
         n += 1
@@ -713,7 +735,7 @@ def r_merge(ctx, rule='R-MERGE'):
         unions = []
         for c in ors:
             ta, tb = tg.read_op(c.args[0]), tg.read_op(c.args[1])
-            if {frozenset(ta), frozenset(tb)} == {frozenset({'L'}), frozenset({'R'})}:
+            if {pairing.side_of(ta), pairing.side_of(tb)} == {'L', 'R'}:
                 unions.append(c)
         n += 1
         ctx.check(len(unions) >= 1, rule, f.path + '/union', f.loc(), 'the survivors of the left and right child are united (|)',
@@ -767,13 +789,13 @@ def r_partition(ctx, rule='R-PARTITION'):
                 by_loop.setdefault(nxt[0].bb, (nxt[0], []))[1].append((c, tag))
         for hb, (nx, sites) in by_loop.items():
             n += 1
-            tags = {t for c, t in sites}
+            tags = {t[0] for c, t in sites}
             ok_each = loop_every_iteration_any(f, nx, [c.bb for c, t in sites])
             twice = any(c2.bb in f.reachable(c1.target, avoid=[nx.bb]) for c1, t1 in sites for c2, t2 in sites if c1 is not c2)
             ctx.check(tags == {'L', 'R'} and ok_each and not twice, rule, '%s/dispatch@L%d' % (f.path, nx.span['line']), nx.loc(),
                       'every element is sent to exactly one of the two sides',
                       'in `%s` the dispatch of items to the two sides of a plane (line %d) can skip an item or send it to both sides' % (f.path, nx.span['line']))
-    ctx.floor(rule, 'side-dispatch loops', n, 3)
+    ctx.floor(rule, 'side-dispatch loops', n, 1)
 
 
 def loop_every_iteration_any(fn, next_call, blocks):
@@ -849,6 +871,38 @@ def r_forest_wipe(ctx, rule='R-FOREST-WIPE'):
             goals = [b for b, k, t in paths.ret_assigns(g) if k in ('ok', 'call', 'other')]
             ok_push = bool(pushes) and all(g.dominates(rp.bb, p.bb) for p in pushes for rp in root_puts) and all(
                 paths.must_pass(g, (paths.result_arms(g, rp).get('ok') or rp.target), goals, [p.bb for p in pushes]) for rp in root_puts)
+            if not ok_push and root_puts:
+                # the root list as a value chosen per path (`Ok(&[])` / `Ok(&[0])` returned by a helper): the alternative that
+                # lists root 0 is defined only after the bucket was written, the empty one only where it was not
+                for (_g2, mp, op2, w2, k2) in db_ops(F, [g]):
+                    if op2 != 'put' or k2 is None:
+                        continue
+                    ki2 = key_info(mp.arg_term(k2))
+                    if not ki2 or ki2[0] != 'metadata':
+                        continue
+                    dm = paths.agg_fields(mp.arg_term(3), 'metadata::Metadata')
+                    if not dm:
+                        continue
+                    rt = dm['roots']
+                    phis = [x for x in walk(rt) if x[0] == 'phi']
+                    for ph in phis:
+                        from reader_rules import phi_defs
+                        defs = phi_defs(g, ph) or []
+                        with0, empty, other = [], [], 0
+                        for bdef, tdef in defs:
+                            arrs = [x for x in walk(tdef) if x[0] == 'array']
+                            if tdef[0] == 'call' and tdef[1].endswith('FromResidual::from_residual'):
+                                continue
+                            if arrs and len(arrs[0][1]) == 1 and const_eval(arrs[0][1][0]) == 0:
+                                with0.append(bdef)
+                            elif arrs and len(arrs[0][1]) == 0:
+                                empty.append(bdef)
+                            else:
+                                other += 1
+                        if with0 and empty and not other:
+                            put_bbs = [rp.bb for rp in root_puts]
+                            ok_push = all(paths.must_pass(g, 0, [b0], put_bbs) for b0 in with0) and \
+                                all(not any(b0 in g.reachable(rp.target) for rp in root_puts) for b0 in empty)
             ctx.check(ok_push, rule, g.path + '/root-listed', c.loc(), 'root 0 is listed exactly when the bucket is written', 'the shortcut lists a root that was not written (or writes one it does not list)')
             # the bucket is written whenever there is at least one item: the only guard allowed on it is "items non-empty"
             for rp in root_puts:
@@ -914,12 +968,28 @@ def r_meta_roots(ctx, rule='R-META-ROOTS'):
             if x.callee.endswith('Vec::<T, A>::push') and i == 0:
                 nx = [s for s in walk(x.arg_term(1)) if s[0] == 'call' and s[1].endswith('ConcurrentNodeIds::next')]
                 pushed = pushed or bool(nx)
+            elif x.callee.endswith(('Extend::extend', 'Vec::<T, A>::append', 'Vec::<T, A>::extend_from_slice')) and i == 0 and len(x.args) > 1:
+                # the new roots collected first (`(..).map(|_| { let id = ids.next()?; put(..); Ok(id) }).collect()`) and appended
+                for y in walk(x.arg_term(1)):
+                    if y[0] == 'closure' and F.fn(y[1]) is not None:
+                        gcl = F.fn(y[1])
+                        if any(z.callee.endswith('ConcurrentNodeIds::next') for z in gcl.calls()) and any(
+                                k2 == 'ok' and paths.mentions_call(t2, [z.bb for z in gcl.calls() if z.callee.endswith('ConcurrentNodeIds::next')][0])
+                                for b2, k2, t2 in paths.ret_assigns(gcl)):
+                            pushed = True
             elif x.callee.startswith('writer::'):
                 handed.append(short(x.callee))
     ctx.check(len(set(handed)) >= 3 and pushed, rule, be.path, c.loc(), 'roots threaded through %s and extended with the new roots' % sorted(set(handed)),
               'the roots published in the metadata of `%s` are not the vector updated by the tree deletion / item removal / insertion steps and extended with the newly created roots (%s, new roots pushed: %s)' % (be.path, sorted(set(handed)), pushed))
     # every root is replaced by the result of its removal pass
-    rm = [g for g in F.reach([be]).values() if any(x.callee.endswith('::iter_mut') for x in g.calls()) and g.path.startswith('writer::')]
+    def over_roots(g, x):
+        # `roots.iter_mut()` on the `&mut [u32]` / `&mut Vec<u32>` of root ids (not any array walked mutably)
+        a0 = x.args[0] if x.args else None
+        if a0 is None or a0.get('k') not in ('copy', 'move'):
+            return False
+        ty = g.local_ty(a0['place']['l'])
+        return 'u32' in ty and 'NodeId' not in ty and 'RoaringBitmap' not in ty
+    rm = [g for g in F.reach([be]).values() if any(x.callee.endswith('::iter_mut') and over_roots(g, x) for x in g.calls()) and g.path.startswith('writer::')]
     for g in rm:
         stores = []
         for bi, blk in enumerate(g.blocks):
@@ -1577,7 +1647,36 @@ def r_tree_count(ctx, rule='R-NTREES'):
     if not ctx.need(len(tc) == 1, rule, 'call of target_n_trees in the build'):
         return
     site = tc[0].bb
-    dele = [c for c in be.calls() if c.callee.startswith('writer::Writer') and any(paths.mentions_call(c.arg_term(i), site) for i in range(len(c.args)))]
+    def is_target(t):
+        # the computed target itself (through casts / copies), not a value derived from it (`.min(n)`, `- 1`, ...)
+        t0 = strip(t)
+        while t0[0] == 'cast':
+            t0 = strip(t0[2])
+        return t0[0] == 'call' and t0[3] == site
+    INT_OPS = ('::min', '::max', '::clamp', '::saturating_add', '::saturating_mul', '::wrapping_add', '::wrapping_sub', '::checked_add', '::checked_sub',
+               '::checked_mul', '::pow', '::div_ceil', '::next_power_of_two', '::abs_diff')
+
+    def is_derived(t):
+        """an integer computed from the target (other than the allowed `target.saturating_sub(roots.len())`)"""
+        t0 = strip(t)
+        while t0[0] == 'cast' or (t0[0] == 'field' and t0[2] == '0' and strip(t0[1])[0] == 'binop'):
+            t0 = strip(t0[2]) if t0[0] == 'cast' else strip(t0[1])
+        if t0[0] == 'binop':
+            return paths.mentions_call(t0, site)
+        if t0[0] == 'call' and t0[1].endswith(INT_OPS) and t0[3] != site:
+            return any(paths.mentions_call(a, site) for a in t0[2])
+        if t0[0] == 'call' and t0[1].endswith('::saturating_sub') and len(t0[2]) == 2:
+            return paths.mentions_call(t0[2][1], site)     # `x - target` is a derivation, `target - x` is the allowed one
+        return False
+    derived = []
+    for c in be.calls():
+        for i in range(len(c.args)):
+            t = c.arg_term(i)
+            if c.bb != site and is_derived(t):
+                derived.append((c, show(t)[:80]))
+    ctx.check(not derived, rule, 'target-unmodified', tc[0].loc(), 'the computed target is used as it is',
+              'the build adjusts the target tree count after computing it (%s): an explicitly requested count would not be honoured' % [(short(c.callee), tt) for c, tt in derived][:2])
+    dele = [c for c in be.calls() if c.callee.startswith('writer::Writer') and any(is_target(c.arg_term(i)) for i in range(len(c.args)))]
     ctx.check(bool(dele), rule, 'target-used-for-deletion', tc[0].loc(), 'the target is handed to the extra-tree deletion (%s)' % [short(c.callee) for c in dele],
               'the target tree count is not used to delete extra trees')
     for c in dele:
@@ -1616,7 +1715,36 @@ def r_tree_count(ctx, rule='R-NTREES'):
     miss = [c for c in be.calls() if c.callee.endswith('::saturating_sub') and paths.mentions_call(c.arg_term(0), site)]
     rs = roots_site(F, be)
     good = bool(miss) and rs is not None and paths.mentions_call(miss[0].arg_term(1), rs) and any(x[0] == 'call' and x[1].endswith('::len') for x in walk(miss[0].arg_term(1)))
+    range_form = None
+    if not good and rs is not None:
+        # the same count spelled as a range: `(roots.len() as u64 .. target).map(|_| create one tree)`
+        for c in be.calls():
+            if c.callee.endswith(('Iterator::map', 'Iterator::try_for_each', 'Iterator::for_each', 'Iterator::next', 'IntoIterator::into_iter')) and c.args:
+                for x in walk(c.arg_term(0)):
+                    if x[0] == 'agg' and x[1].endswith('ops::Range'):
+                        dct = dict(x[3])
+                        st_, en_ = dct['start'], dct['end']
+                        en0 = strip(en_)
+                        while en0[0] == 'cast':
+                            en0 = strip(en0[2])
+                        if paths.mentions_call(st_, rs) and any(y[0] == 'call' and y[1].endswith('::len') for y in walk(st_)) and en0[0] == 'call' and en0[3] == site:
+                            range_form = c
+        good = range_form is not None
     ctx.check(good, rule, 'missing-trees', miss[0].loc() if miss else be.loc(), 'creates target - roots.len() new trees', 'the number of trees created is not target - current roots')
+    if range_form is not None and not miss:
+        clo = [y for y in walk(range_form.arg_term(len(range_form.args) - 1)) if y[0] == 'closure'] if len(range_form.args) > 1 else []
+        okl = False
+        for y in clo:
+            gcl = F.fn(y[1])
+            if gcl is not None:
+                al = [z for z in gcl.calls() if z.callee.endswith('ConcurrentNodeIds::next')]
+                oks = [b2 for b2, k2, t2 in paths.ret_assigns(gcl) if k2 == 'ok']
+                okl = bool(al) and bool(oks) and paths.must_pass(gcl, 0, oks, [al[0].bb])
+        if not clo:
+            nx = [c for c in be.calls() if c.callee.endswith('Iterator::next') and paths.mentions_call(c.arg_term(0), range_form.bb)]
+            alloc = [c for c in be.calls() if c.callee.endswith('ConcurrentNodeIds::next')]
+            okl = bool(nx) and bool(alloc) and loop_every_iteration(be, nx[0], alloc[0].bb)
+        ctx.check(okl, rule, 'missing-trees-loop', range_form.loc(), 'one new root per missing tree', 'the creation of the missing trees does not allocate one root per element of the range')
     if miss:
         # the creation loop is bounded by that difference and each iteration allocates + lists a root
         nx = [c for c in be.calls() if c.callee.endswith('Iterator::next') and paths.mentions_call(c.arg_term(0), miss[0].bb)]
